@@ -967,6 +967,40 @@ def opSX (args obs : List String) : P String := do
     | _ => pure (reply false false [toString m])
   | _ => throw "SX: arity"
 
+/-- prefix-notation expression: `+ l r`, `- l r`, `* l r`, leaf `L:s:n:f:code`. Returns the tree and the rest. -/
+def pExpr : Nat → List String → P (Expr × List String)
+  | 0, _ => throw "EX: too deep"
+  | _, [] => throw "EX: truncated"
+  | fuel + 1, t :: rest =>
+    if t == "+" || t == "-" || t == "*" then do
+      let (l, r1) ← pExpr fuel rest
+      let (r, r2) ← pExpr fuel r1
+      pure ((if t == "+" then Expr.add l r else if t == "-" then Expr.sub l r else Expr.mul l r), r2)
+    else
+      match t.splitOn ":" with
+      | ["L", s, n, f, c] => do pure (Expr.leaf (← pFmt s n f) (← pInt c), rest)
+      | _ => throw s!"EX: bad token {t}"
+
+/-- `EX <rounding> <overflow> <prefix expression…> | s n f code value ov un` — a nested expression evaluated with
+optimal sizing on both sides; Spec: the value is the exact value of the tree, no overflow/underflow flag. -/
+def opEX2 (args obs : List String) : P String := do
+  match args with
+  | r :: o :: toks =>
+    let r ← pRounding r
+    let o ← pOverflow o
+    let (e, rest) ← pExpr 64 toks
+    if !rest.isEmpty then throw "EX: trailing tokens"
+    match e.eval r o with
+    | none => pure (reply (isExc obs) (isExc obs) ["ERR"])
+    | some (t, c) =>
+      let m := [showSigned t.signed, toString t.nword, toString t.nfrac, toString c, showRat (valueOf t c), "0", "0"]
+      match obs with
+      | [_, _, _, _, v, ov, un] =>
+        let s := (v == showRat e.value) && ov == "0" && un == "0"
+        pure (reply (decide (m = obs)) s m)
+      | _ => pure (reply false false m)
+  | _ => throw "EX: arity"
+
 /-- `UN <op=neg|pos|abs> <fx> [codes] | s n f [codes]` — unary operators build a default-config object. -/
 def opUN (args obs : List String) : P String := do
   match args with
@@ -992,6 +1026,7 @@ def dispatch (op : String) (args obs : List String) : P String :=
   | "I5" => opI5 args obs
   | "M5" => opM5 args obs
   | "AR" => opAR args obs
+  | "EXPR" => opEX2 args obs
   | "AO" => opAO args obs
   | "UN" => opUN args obs
   | "AC" => opAC args obs
